@@ -6,7 +6,8 @@ Correspondence: periodogram / periodogram_csd / multi_taper_psd / multi_taper_cs
 code vs the Lean model `Nitime.C04` (run at Float; the theorems are about the same definitions
 at R = real numbers, K = complex numbers).
 Oracle (independent of the Lean model): time-domain energy computed with numpy against
-sum(psd) * Fs / NFFT, per-taper spectra via np.fft for the adaptive range clause, re-runs with a
+sum(psd) * Fs / NFFT, per-taper spectra via np.fft for the adaptive range clause, re-runs on the same data in other memory layouts (Fortran, transposed view, strided, negative strides), on the
+same ndarray refilled in place (identity-keyed caches), through the wrappers vs the direct call, with a
 scaled signal (|a|^2), re-runs two-sided and folds by P[k] + P[N-k] (fold), sign/dtype checks.
 
 This module is also used by harness/c06.py (same operations, matrix-level properties).
@@ -19,7 +20,7 @@ from common import Case, Failure, f2x, flist, clist, parse_flist, close_vec
 PID = 'C04'
 LEAN_TARGETS = ['Nitime.Props.C04']
 RULE = ('one PRNG state drives: estimator in {periodogram, periodogram_csd, multi_taper_psd, multi_taper_csd, welch(get_spectra), '
-        'SpectralAnalyzer.psd/.periodogram/.spectrum_multi_taper} x real/complex x n of both parities x NFFT in {None, n, >n odd/even} x '
+        'SpectralAnalyzer.psd/.periodogram/.spectrum_multi_taper}, the csd estimators also reached through get_spectra / get_spectra_bi / CoherenceAnalyzer.spectrum with the full option set, x real/complex x n of both parities x NFFT in {None, n, >n odd/even} x '
         'sides in {default, onesided, twosided} x Fs log-uniform in (1e-2,1e4) x 1..6 channels (+ an extra leading dimension), stratified by case index so that every parity / NFFT-mode / amplitude decade 1e-9..1e6 with non-zero mean / layout (1-d, (1,n), >=4 channels) / n_overlap in {None,0,1,N/2,N-1} / unit in {s,ms,us} combination occurs in each run, coherent channels with different spectra for adaptive weights x '
         'NW/BW, low_bias, adaptive x Welch NFFT/overlap/window; distinct = distinct protocol line; non-trivial = signal not identically zero')
 ASSUMPTIONS = [
@@ -34,10 +35,12 @@ TRUSTED_EXTRA = [
     'welchCsdAt models matplotlib.mlab.csd / mlab.psd from the documented behaviour (zero-pad to NFFT, sliding segments every NFFT-noverlap, window, detrend none, conj(X) Y averaged over segments, one-sided doubling except DC/Nyquist, / Fs / sum(window^2), two-sided output rolled to start at the most negative frequency); mlab itself is not verified',
     'the Float reading of the RScalar/CScalar-polymorphic model approximates its real/complex reading (unproved)',
     'np.hanning as the default Welch window (its values are passed to the model as data)',
+    'exact reading: the same polymorphic definitions run over Q / Q(i) (ops xperiodogram, xpcsd, xwelch; NFFT in {1,2,4}, the only lengths with roots of unity in Q(i)); the implementation is compared with the exact rationals at 1e-13 and Parseval is checked with == on the exact output in every run',
 ]
 
 RTOL = 1e-9
 UNITS_TS = ['s', 'ms', 'us', 's']
+VIAS = [None, 'get_spectra', None, 'CoherenceAnalyzer', 'get_spectra_bi', 'get_spectra']
 
 
 def tsa():
@@ -118,34 +121,94 @@ def cmp_vec(rtol=RTOL):
 
 
 # ------------------------------------------------------------------ implementation adapter
-def run_impl(m):
-    """call the real API for the operation described by `m`; returns a dict of arrays"""
-    s = get_data(m)
+def adaptive_w(m, s):
+    """adaptive weights of every channel, from the public utils on a FRESH copy of the data"""
+    n = s.shape[-1]
+    NW, Kmax = mt_params(m, n)
+    spectra, eig = utils().tapered_spectra(np.array(s.reshape(-1, n)), (NW, Kmax), NFFT=m.get('NFFT'),
+                                           low_bias=m.get('low_bias', True))
+    spectra = spectra.reshape(-1, len(eig), spectra.shape[-1])
+    sd = 'onesided' if eff_onesided(m) else 'twosided'
+    ws = []
+    for i in range(spectra.shape[0]):
+        w, nu = utils().adaptive_weights(spectra[i], eig, sides=sd)
+        ws.append(np.asarray(w, dtype=float))
+    return np.array(ws)
+
+
+def method_dict(m):
+    """the `method` dictionary that drives get_spectra / get_spectra_bi / CoherenceAnalyzer for this operation"""
+    op, Fs = m['op'], m['Fs']
+    if op == 'pcsd':
+        return {'this_method': 'periodogram_csd', 'Fs': Fs, 'NFFT': m.get('NFFT'), 'sides': m['sides']}
+    if op == 'mtcsd':
+        return {'this_method': 'multi_taper_csd', 'Fs': Fs, 'NFFT': m.get('NFFT'), 'sides': m['sides'], 'adaptive': m['adaptive'],
+                'low_bias': m.get('low_bias', True), 'NW': m.get('NW'), 'BW': m.get('BW')}
+    meth = {'this_method': 'welch', 'NFFT': m['NFFT'], 'Fs': Fs}
+    if m.get('n_overlap') is not None:
+        meth['n_overlap'] = m['n_overlap']
+    if m.get('window') is not None:
+        meth['window'] = np.array(m['window'], dtype=float)
+    return meth
+
+
+def run_wrapped(m, s):
+    """the same estimator reached through a wrapper: get_spectra, get_spectra_bi or CoherenceAnalyzer.spectrum"""
+    A = tsa()
+    via, op = m['via'], m['op']
+    n = s.shape[-1]
+    M = int(np.prod(s.shape[:-1])) if s.ndim > 1 else 1
+    meth = method_dict(m)
+    key = 'W' if op == 'welch' else 'C'
+    if via == 'get_spectra':
+        f, fxy = A.get_spectra(s, method=meth)
+    elif via == 'CoherenceAnalyzer':
+        import nitime.timeseries as ts
+        from nitime.analysis import CoherenceAnalyzer
+        an = CoherenceAnalyzer(ts.TimeSeries(s.reshape(-1, n), sampling_rate=m['Fs']), method=meth)
+        fxy, f = an.spectrum, an.frequencies
+    elif via == 'get_spectra_bi':
+        rows = s.reshape(-1, n)
+        f, fxx, fyy, fxy01 = A.get_spectra_bi(rows[0], rows[1], method=meth)
+        L = np.asarray(fxy01).shape[-1]
+        fxy = np.zeros((2, 2, L), dtype=complex)
+        fxy[0, 0], fxy[1, 1], fxy[0, 1] = fxx, fyy, fxy01
+        if op != 'welch':
+            fxy[1, 0] = np.conj(fxy01)
+    else:
+        raise ValueError(via)
+    fxy = np.asarray(fxy)
+    if not (op == 'welch' and M == 1):
+        fxy = fxy.reshape(M, M, -1)
+    return {'f': f, key: fxy}
+
+
+def run_impl(m, s=None):
+    """call the real API for the operation described by `m` (on the array object `s` when given, else on a fresh
+    array built from the recorded data); returns a dict of arrays"""
+    if s is None:
+        s = get_data(m)
     n = s.shape[-1]
     op = m['op']
     Fs = m['Fs']
     A = tsa()
+    if m.get('via') and op in ('pcsd', 'mtcsd', 'welch'):
+        out = run_wrapped(m, s)
+        if op == 'mtcsd' and m['adaptive']:
+            out['w'] = adaptive_w(m, s)
+        return out
     if op == 'periodogram':
         f, P = A.periodogram(s, Fs=Fs, N=m.get('NFFT'), sides=m['sides'])
         return {'f': f, 'P': P}
     if op == 'pcsd':
-        f, Cm = A.periodogram_csd(s.copy(), Fs=Fs, NFFT=m.get('NFFT'), sides=m['sides'])
+        f, Cm = A.periodogram_csd(s, Fs=Fs, NFFT=m.get('NFFT'), sides=m['sides'])
         return {'f': f, 'C': Cm}
     if op in ('mtpsd', 'mtcsd'):
         kw = dict(Fs=Fs, NW=m.get('NW'), BW=m.get('BW'), adaptive=m['adaptive'], low_bias=m.get('low_bias', True),
                   sides=m['sides'], NFFT=m.get('NFFT'))
         out = {}
         if m['adaptive']:
-            NW, Kmax = mt_params(m, n)
-            spectra, eig = utils().tapered_spectra(s.reshape(-1, n), (NW, Kmax), NFFT=m.get('NFFT'),
-                                                   low_bias=m.get('low_bias', True))
-            spectra = spectra.reshape(-1, len(eig), spectra.shape[-1])
-            sd = 'onesided' if eff_onesided(m) else 'twosided'
-            ws = []
-            for i in range(spectra.shape[0]):
-                w, nu = utils().adaptive_weights(spectra[i], eig, sides=sd)
-                ws.append(np.asarray(w, dtype=float))
-            out['w'] = np.array(ws)
+            out['w'] = adaptive_w(m, s)
         if op == 'mtpsd':
             f, P, _ = A.multi_taper_psd(s, jackknife=False, **kw)
             out.update(f=f, P=P)
@@ -204,6 +267,8 @@ def make_cases(m, r, pid='C04'):
     nz = bool(np.any(rows != 0))
     pad = 'padded' if eff_nfft(m, n) > n else 'nopad'
     out = []
+    if m.get('exact'):
+        return exact_cases(m, r, pid)
     if op in ('periodogram', 'an_periodogram'):
         Fs = m.get('Fs_eff', m['Fs'])
         N = eff_nfft(m, n)
@@ -274,7 +339,144 @@ def make_cases(m, r, pid='C04'):
             out.append(Case('%s welch %s %d %d %s 1 %s %s' % (pid, f2x(m['Fs_eff']), N, nov, '1' if one else '2', flist(win), clist(rows[i])),
                             ok_c(P[i]), 'an_psd/%s/%s' % ('onesided' if one else 'twosided', pad), cmp=cmp_vec(),
                             meta=m if i == 0 else None, nontrivial=nz))
+    if m.get('via'):
+        for c in out:
+            c.clause += '/via-' + m['via']
     return out
+
+
+
+# ------------------------------------------------------------------ exact runs (model over Q / Q(i), NFFT in {1,2,4})
+from fractions import Fraction as Fr
+
+
+def frs(v):
+    f = Fr(float(v))
+    return str(f.numerator) if f.denominator == 1 else '%d/%d' % (f.numerator, f.denominator)
+
+
+def qlist(zs):
+    out = []
+    for z in np.asarray(zs).reshape(-1):
+        z = complex(z)
+        out += [frs(z.real), frs(z.imag)]
+    return ','.join(out) if out else '-'
+
+
+def rlist(vs):
+    vs = [frs(v) for v in np.asarray(vs).reshape(-1)]
+    return ','.join(vs) if vs else '-'
+
+
+def parse_fracs(sx):
+    return [] if sx == '-' else [Fr(t) for t in sx.split(',')]
+
+
+def cmp_exact(check=None, cplx_out=False):
+    """implementation (binary64) against the EXACT rational output of the model: every entry within 1e-13 of the
+    largest magnitude; `check(exact values)` additionally verifies an exact identity (Parseval) on the model's output"""
+    def cmp(impl, model):
+        if not (impl.startswith('ok ') and model.startswith('ok ')):
+            return False
+        a = parse_flist(impl[3:])
+        b = parse_fracs(model[3:])
+        if len(a) != len(b):
+            return False
+        sc = max([abs(float(x)) for x in b] + [abs(x) for x in a] + [0.0])
+        if any(abs(x - float(y)) > 1e-13 * sc for x, y in zip(a, b)):
+            return False
+        return True if check is None else bool(check(b))
+    return cmp
+
+
+def exact_cases(m, r, pid):
+    """protocol lines for the exact model ops; the exact Parseval identity is checked on the model's own output"""
+    s = get_data(m)
+    n = s.shape[-1]
+    rows = s.reshape(-1, n)
+    M = rows.shape[0]
+    op = m['op']
+    cplx = m.get('im') is not None
+    Fs = Fr(float(m['Fs']))
+    out = []
+    nz = bool(np.any(rows != 0))
+    def power(i):
+        return sum(Fr(float(v.real)) ** 2 + Fr(float(v.imag)) ** 2 for v in rows[i].astype(complex)) / n
+    if op == 'periodogram':
+        one = eff_onesided(m)
+        N = eff_nfft(m, n)
+        P = np.asarray(r['P']).reshape(M, -1)
+        for i in range(M):
+            chk = (lambda b, i=i: sum(b) * Fs / N == power(i)) if (N >= n and (not one or not cplx)) else None
+            out.append(Case('%s xperiodogram %s %d %s %s' % (pid, frs(m['Fs']), N, '1' if one else '2', qlist(rows[i])), ok_f(P[i]),
+                            'exact/periodogram/%s' % ('onesided' if one else 'twosided'), cmp=cmp_exact(chk), meta=m if i == 0 else None, nontrivial=nz))
+    elif op == 'pcsd':
+        one = eff_onesided(m)
+        N = eff_nfft(m, n)
+        L = N // 2 + 1 if one else N
+        def chk(b):
+            if not (N >= n and (not one or not cplx)):
+                return True
+            for i in range(M):
+                d = [b[2 * ((i * M + i) * L + k)] for k in range(L)]
+                if sum(d) * Fs / N != power(i):
+                    return False
+            return True
+        out.append(Case('%s xpcsd %s %d %s %d %s' % (pid, frs(m['Fs']), N, '1' if one else '2', M, qlist(rows.reshape(-1))), ok_c(r['C']),
+                        'exact/periodogram_csd/%s' % ('onesided' if one else 'twosided'), cmp=cmp_exact(chk), meta=m, nontrivial=nz))
+    elif op == 'welch':
+        N = m['NFFT']
+        one = not cplx
+        nov = welch_overlap(m)
+        win = [Fr(float(v)) for v in welch_window(m)]
+        L = N // 2 + 1 if one else N
+        xp = [[(Fr(float(v.real)), Fr(float(v.imag))) for v in rows[i].astype(complex)] + [(Fr(0), Fr(0))] * max(0, N - n) for i in range(M)]
+        starts = list(range(0, len(xp[0]) - N + 1, N - nov))
+        w2 = sum(w * w for w in win)
+        def want(i):
+            tot = sum(sum(win[j] ** 2 * (xp[i][s0 + j][0] ** 2 + xp[i][s0 + j][1] ** 2) for j in range(N)) for s0 in starts)
+            return tot / len(starts) / w2
+        def chk(b):
+            for i in range(M):
+                d = [b[2 * (((i * M + i) * L + k) if M > 1 else k)] for k in range(L)]
+                if sum(d) * Fs / N != want(i):
+                    return False
+            return True
+        out.append(Case('%s xwelch %s %d %d %s %d %s %s' % (pid, frs(m['Fs']), N, nov, '1' if one else '2', M, rlist(welch_window(m)),
+                                                           qlist(rows.reshape(-1))), ok_c(r['W']),
+                        'exact/welch/%s' % ('onesided' if one else 'twosided'), cmp=cmp_exact(chk), meta=m, nontrivial=nz))
+    return out
+
+
+def gen_exact(rng, nr, kind, i):
+    """small dyadic inputs on which the implementation's binary64 arithmetic is (nearly) exact"""
+    cplx = (i % 3) == 2
+    Fs = [1.0, 2.0, 0.5, 10.0, 3.0, 0.25][i % 6]
+    def vals(shape):
+        v = np.array([rng.randint(-12, 12) / 4.0 for _ in range(int(np.prod(shape)))]).reshape(shape)
+        if cplx:
+            v = v + 1j * np.array([rng.randint(-8, 8) / 4.0 for _ in range(int(np.prod(shape)))]).reshape(shape)
+        return v
+    sides = ['default', 'onesided', 'twosided'][(i // 2) % 3]
+    if cplx and sides == 'onesided':
+        sides = 'default'
+    if kind == 'xperiodogram':
+        N = [4, 2, 4, 1, 4][i % 5]
+        n = rng.randint(1, N)
+        shape = [(n,), (2, n), (1, n), (3, n)][(i // 3) % 4]
+        return put_data({'op': 'periodogram', 'exact': True, 'Fs': Fs, 'NFFT': N if (n < N or i % 2) else None, 'sides': sides, 'scale': 2.0}, vals(shape))
+    if kind == 'xpcsd':
+        N = [4, 2, 4][i % 3]
+        n = rng.randint(1, N)
+        return put_data({'op': 'pcsd', 'exact': True, 'Fs': Fs, 'NFFT': N if (n < N or i % 2) else None, 'sides': sides, 'scale': 2.0},
+                        vals((rng.randint(1, 3), n)))
+    N = [4, 2, 4, 4][i % 4]
+    n = rng.randint(1, 4 * N + 1)
+    M = [1, 2, 3][(i // 2) % 3]
+    wins = {4: [[1, 1, 1, 1], [0.5, 1, 1, 0.5], [0.25, 0.75, 0.75, 0.25]], 2: [[1, 1], [0.5, 1.5]]}[N]
+    m = {'op': 'welch', 'exact': True, 'Fs': Fs, 'NFFT': N, 'sides': 'default', 'n_overlap': [0, 1, N - 1, N // 2][(i // 3) % 4],
+         'window': [float(v) for v in wins[(i // 5) % len(wins)]], 'scale': 2.0}
+    return put_data(m, vals((n,) if M == 1 else (M, n)))
 
 
 # ------------------------------------------------------------------ independent oracle
@@ -306,7 +508,7 @@ def tapered_energy(rows, dpss):
     return (np.abs(xm[:, None, :] * dpss[None, :, :]) ** 2).sum(axis=-1)
 
 
-def judge(m, r=None):
+def judge(m, r=None, robust=True):
     """property-level judgement of the implementation on the operation `m` (list of (symptom, what))"""
     if r is None:
         r = run_impl(m)
@@ -455,6 +657,73 @@ def judge(m, r=None):
             r2 = run_impl(put_data(dict(m), a * s))
             if not rel_close(np.asarray(r2['W']), abs(a) ** 2 * np.asarray(r['W']), rt):
                 bad.append(('scale', 'welch(a*x) != |a|^2 welch(x)'))
+    if robust:
+        bad += robustness(m, r)
+    return bad
+
+
+# ------------------------------------------------------------------ robustness classes (layouts, identity-keyed caches, wrappers)
+def layout_variants(s):
+    """the same logical array in other memory layouts"""
+    out = []
+    if s.ndim >= 2:
+        out.append(('fortran', np.asfortranarray(s)))
+        out.append(('transposed-view', np.ascontiguousarray(s.T).T))
+        big = np.zeros((2 * s.shape[0],) + s.shape[1:], dtype=s.dtype)
+        big[::2] = s
+        out.append(('channel-strided', big[::2]))
+        out.append(('channel-negative-stride', np.ascontiguousarray(s[::-1])[::-1]))
+    big = np.zeros(s.shape[:-1] + (2 * s.shape[-1] + 1,), dtype=s.dtype)
+    big[..., 1::2] = s
+    out.append(('time-strided', big[..., 1::2]))
+    out.append(('time-negative-stride', np.ascontiguousarray(s[..., ::-1])[..., ::-1]))
+    return out
+
+
+def same_result(r1, r2, tol):
+    for k in ('P', 'C', 'W'):
+        if k in r1:
+            a, b = np.asarray(r1[k]), np.asarray(r2[k])
+            if a.shape != b.shape or not rel_close(a, b, tol):
+                return False
+    f1, f2 = r1.get('f'), r2.get('f')
+    if f1 is not None and f2 is not None and (np.shape(f1) != np.shape(f2) or not np.allclose(f1, f2, rtol=1e-12, atol=0)):
+        return False
+    return True
+
+
+def robustness(m, r):
+    """classes of regressions that one call on one fresh C-contiguous array cannot show:
+    memory layouts, state kept between calls on the same array object, wrappers vs direct call"""
+    bad = []
+    if m['op'].startswith('an_'):
+        return bad
+    s = get_data(m)
+    tol = 1e-6 if m.get('adaptive') else 2e-9
+    for name, v in layout_variants(s):
+        assert np.array_equal(v, s)
+        try:
+            r2 = run_impl(m, v)
+        except Exception as e:
+            bad.append(('layout-' + name, 'raises %s on a %s array with the same contents' % (type(e).__name__, name)))
+            continue
+        if not same_result(r2, r, tol):
+            bad.append(('layout-' + name, 'result for a %s array differs from the result for its C-contiguous copy' % name))
+    # identity-keyed caches: same ndarray object, refilled in place (channels rotated, new values)
+    a = np.array(s)
+    run_impl(m, a)
+    new = (np.roll(s, 1, axis=0) if s.ndim >= 2 and s.shape[0] > 1 else s)[..., ::-1] * 0.5 + 0.25 * np.max(np.abs(s))
+    a[...] = new
+    r2 = run_impl(m, a)
+    r3 = run_impl(m, np.array(new))
+    if not same_result(r2, r3, tol):
+        bad.append(('stale-after-inplace-overwrite', 'second call on the same ndarray refilled in place differs from a call on a fresh copy of the new contents'))
+    if not np.array_equal(a, new):
+        bad.append(('input-modified', 'the estimator changed its input array'))
+    if m.get('via'):
+        rd = run_impl(dict(m, via=None))
+        if not same_result({k: v for k, v in r.items() if k != 'f'}, rd, tol):
+            bad.append(('wrapper-ne-direct', 'values through %s differ from the direct call with the same options' % m['via']))
     return bad
 
 
@@ -469,7 +738,7 @@ def clause_of(m):
             'welch': 'welch', 'an_psd': 'an_psd', 'an_periodogram': 'an_periodogram', 'an_mt': 'an_mt'}[op]
     if op in ('mtpsd', 'mtcsd', 'an_mt'):
         name += '/adaptive' if m['adaptive'] else '/fixed'
-    return '%s/%s/%s' % (name, 'onesided' if one else 'twosided', 'padded' if N > n else 'nopad')
+    return '%s/%s/%s%s' % (name, 'onesided' if one else 'twosided', 'padded' if N > n else 'nopad', ('/via-' + m['via']) if m.get('via') else '')
 
 
 # ------------------------------------------------------------------ generators
@@ -546,6 +815,8 @@ def gen_meta(rng, nr, tier, kind, i=None):
     big = tier == 'thorough'
     nmax = 160 if big else 48
     i = rng.randrange(10**6) if i is None else i
+    if kind in ('xperiodogram', 'xpcsd', 'xwelch'):
+        return gen_exact(rng, nr, kind, i)
     if kind in ('periodogram', 'pcsd'):
         n = gen_n(rng, 8, nmax, i)
         cplx = (i % 11) in (2, 5, 8)
@@ -554,6 +825,10 @@ def gen_meta(rng, nr, tier, kind, i=None):
              'scale': rng.choice([1.5, -2.0, 0.25, 3.0])}
         if cplx and m['sides'] == 'onesided' and rng.random() < 0.7:
             m['sides'] = 'default'
+        if kind == 'pcsd':
+            m['via'] = VIAS[(i // 4) % len(VIAS)]
+            if m['via'] == 'get_spectra_bi':
+                shape = (2, n)
         return put_data(m, gen_signal(rng, nr, shape, cplx, i=i // 7))
     if kind in ('mtpsd', 'mtcsd'):
         n = gen_n(rng, 16, nmax, i)
@@ -570,6 +845,10 @@ def gen_meta(rng, nr, tier, kind, i=None):
         else:
             m['NW'] = rng.choice([2, 2.5, 3, 4, None])
             m['BW'] = None
+        if kind == 'mtcsd':
+            m['via'] = VIAS[(i // 4) % len(VIAS)]
+            if m['via'] == 'get_spectra_bi':
+                shape = (2, n)
         return put_data(m, gen_signal(rng, nr, shape, cplx, i=i // 7, coherent=(m['adaptive'] and i % 2 == 1)))
     if kind == 'welch':
         Ns = [8, 9, 12, 15, 16, 21, 32] + ([64, 63] if big else [])
@@ -582,6 +861,14 @@ def gen_meta(rng, nr, tier, kind, i=None):
              'n_overlap': [None, 0, 1, N // 2, N - 1, rng.randint(0, N - 1)][(i // 5) % 6],
              'window': rng.choice([None, None, [float(v) for v in np.ones(N)], [float(v) for v in np.hamming(N)]]),
              'scale': rng.choice([1.5, -2.0, 0.25])}
+        m['via'] = [None, None, 'get_spectra_bi', 'CoherenceAnalyzer'][(i // 4) % 4]
+        if m['via'] == 'get_spectra_bi':
+            shape = (2, n)
+        elif m['via'] == 'CoherenceAnalyzer':
+            if M == 1:
+                shape = (2, n)
+            if m['n_overlap'] is None:
+                m['n_overlap'] = N // 2     # the analyzer's own default overlap (32) ignores NFFT
         return put_data(m, gen_signal(rng, nr, shape, cplx, i=i // 7))
     if kind == 'an_psd':
         N = [8, 9, 16, 21, 32][i % 5]
@@ -607,8 +894,10 @@ def gen_meta(rng, nr, tier, kind, i=None):
     raise ValueError(kind)
 
 
-MIX = {'quick': [('periodogram', 160), ('pcsd', 100), ('mtpsd', 90), ('mtcsd', 60), ('welch', 100), ('an_psd', 30), ('an_periodogram', 25), ('an_mt', 25)],
-       'thorough': [('periodogram', 900), ('pcsd', 500), ('mtpsd', 400), ('mtcsd', 250), ('welch', 500), ('an_psd', 120), ('an_periodogram', 100), ('an_mt', 100)]}
+MIX = {'quick': [('periodogram', 160), ('pcsd', 100), ('mtpsd', 90), ('mtcsd', 60), ('welch', 100), ('an_psd', 30), ('an_periodogram', 25), ('an_mt', 25),
+                 ('xperiodogram', 60), ('xpcsd', 40), ('xwelch', 60)],
+       'thorough': [('periodogram', 900), ('pcsd', 500), ('mtpsd', 400), ('mtcsd', 250), ('welch', 500), ('an_psd', 120), ('an_periodogram', 100), ('an_mt', 100),
+                    ('xperiodogram', 400), ('xpcsd', 300), ('xwelch', 400)]}
 
 
 def gen_all(rng, tier, seed, pid=PID, mix=None):
